@@ -1,16 +1,16 @@
 package main
 
 import (
-	"os"
-	"unicode"
 	"fmt"
 	"go/ast"
 	"go/constant"
 	"go/token"
 	"go/types"
+	"os"
 	"sort"
 	"strconv"
 	"strings"
+	"unicode"
 
 	"golang.org/x/tools/go/ssa"
 )
@@ -400,7 +400,6 @@ func tokenConstName(c *Ctx, cst *ssa.Const) string {
 	return cst.String()
 }
 
-
 // c18Chars: R5 - the expander separates a keyword from whatever could otherwise lex as part of it.
 func c18Chars(c *Ctx) {
 	c.rule("C18-R5", "CHR: when `glyph expand` replaces a symbol by its keyword it writes a space before every following character that the expanded lexer accepts inside an identifier (decided for each byte 0..127 by folding the formatter's condition and the lexer's isIdentifierChar): otherwise `$_tmp` becomes `let_tmp`, one identifier, and the expanded text no longer parses to the same tree. CanonicalizeSource decides that a line is blank on its trimmed text (a whitespace-only line is written out empty, so it must count as blank, or formatting twice differs from formatting once)")
@@ -479,7 +478,8 @@ func c18Chars(c *Ctx) {
 				}
 				e := &chrEval{c: byte(ch), isChar: isNext}
 				if os.Getenv("GV_DEBUG_CHR") != "" && ch == 'a' {
-					println("start block", start.Index); debugChr = true
+					println("start block", start.Index)
+					debugChr = true
 				}
 				sp := e.walk(start, isSpaceWrite, func(b *ssa.BasicBlock) bool {
 					// back at the scanning loop: the keyword has been handled
@@ -551,7 +551,6 @@ func c18Chars(c *Ctx) {
 		})
 	}
 }
-
 
 // c18Context: R6 - words that are identifiers of the compact language are keywords of the expanded language only in context.
 func c18Context(c *Ctx) {
